@@ -1,5 +1,5 @@
 """C02 -- only objects the parent controls are ever modified or deleted."""
-from props import sync_level
+from props import sync_level, all_families
 from plan_own import OWN_PLAN
 
 MANIFEST = dict(
@@ -13,4 +13,4 @@ MANIFEST = dict(
 
 
 def run(scr, tier, replay_file):
-    return sync_level(scr, tier, "C02", "C02_", OWN_PLAN, replay_file)
+    return sync_level(scr, tier, "C02", "C02_", all_families(OWN_PLAN), replay_file)
